@@ -78,6 +78,11 @@ type Case struct {
 
 	KDs     []KD    `json:"kds,omitempty"`
 	Lead    int     `json:"lead,omitempty"` // number of SPSSODescriptors without POST ACS and without keys placed before the one that holds the ACS and the keys
+	// LeadRole: a further SPSSODescriptor of the same entity placed FIRST, with a POST consumer service of its own
+	// (another location, index 7) and "" = none | "nokey" | "otherkey" (an encryption key of its own: fixture sp2).
+	// ReqBy: how the request names its consumer service: "" = by URL | "index" (AssertionConsumerServiceIndex=1, the real one)
+	LeadRole string `json:"lead_role,omitempty"`
+	ReqBy    string `json:"req_by,omitempty"`
 	Session Session `json:"session,omitempty"`
 	Method  string  `json:"method,omitempty"` // POST | GET | initiated
 	// IDPNoise: IdentityProvider options and optional session fields (see curIDPNoise); idp, rekey and fresh kinds
@@ -97,6 +102,7 @@ type Case struct {
 
 	// spmeta: one defect class, judged as plaintext and as ciphertext
 	Defect string `json:"defect,omitempty"`
+	SPOpt  string `json:"sp_opt,omitempty"` // spmeta: see spOpts
 	Layout string `json:"layout,omitempty"` // assert | resp | both
 	Seed   uint64 `json:"seed,omitempty"`
 	EncLay string `json:"enc_layout,omitempty"`
@@ -143,6 +149,7 @@ func certText(k KD) (string, bool) {
 var validities = []string{"", "role-past", "role-future", "entity-past", "entity-future", "both-past", "cache-1s"}
 
 var curValidity string // set by check() for the case being judged (cases are judged one at a time)
+var curLeadRole, curReqBy string
 
 func metadata(kds []KD, lead ...int) *saml.EntityDescriptor {
 	var leading []saml.SPSSODescriptor
@@ -178,6 +185,15 @@ func metadata(kds []KD, lead ...int) *saml.EntityDescriptor {
 		d.ValidUntil = &future
 	case "cache-1s":
 		d.CacheDuration = time.Second
+	}
+	if curLeadRole != "" {
+		other := saml.SPSSODescriptor{AssertionConsumerServices: []saml.IndexedEndpoint{{Binding: saml.HTTPPostBinding, Location: spkit.SPACS + "/other-role", Index: 7}}}
+		if curLeadRole == "otherkey" {
+			kd := saml.KeyDescriptor{Use: "encryption"}
+			kd.KeyInfo.X509Data.X509Certificates = []saml.X509Certificate{{Data: fix.Get("sp2").CertB64()}}
+			other.KeyDescriptors = []saml.KeyDescriptor{kd}
+		}
+		leading = append([]saml.SPSSODescriptor{other}, leading...)
 	}
 	md := &saml.EntityDescriptor{EntityID: spkit.SPEntity, SPSSODescriptors: append(leading, d)}
 	switch curValidity {
@@ -350,6 +366,11 @@ func newIDP(md *saml.EntityDescriptor, s Session) *saml.IdentityProvider {
 }
 
 func authnRequest() []byte {
+	if curReqBy == "index" {
+		return []byte(`<samlp:AuthnRequest xmlns:saml="urn:oasis:names:tc:SAML:2.0:assertion" xmlns:samlp="urn:oasis:names:tc:SAML:2.0:protocol" ID="id-req" Version="2.0" IssueInstant="` +
+			forge.T(fix.Epoch.Add(-time.Second)) + `" Destination="` + spkit.IDPSSO + `" AssertionConsumerServiceIndex="1">` +
+			`<saml:Issuer Format="urn:oasis:names:tc:SAML:2.0:nameid-format:entity">` + spkit.SPEntity + `</saml:Issuer></samlp:AuthnRequest>`)
+	}
 	return []byte(`<samlp:AuthnRequest xmlns:saml="urn:oasis:names:tc:SAML:2.0:assertion" xmlns:samlp="urn:oasis:names:tc:SAML:2.0:protocol" ID="id-req" Version="2.0" IssueInstant="` +
 		forge.T(fix.Epoch.Add(-time.Second)) + `" Destination="` + spkit.IDPSSO + `" AssertionConsumerServiceURL="` + spkit.SPACS + `" ProtocolBinding="urn:oasis:names:tc:SAML:2.0:bindings:HTTP-POST">` +
 		`<saml:Issuer Format="urn:oasis:names:tc:SAML:2.0:nameid-format:entity">` + spkit.SPEntity + `</saml:Issuer></samlp:AuthnRequest>`)
@@ -743,7 +764,11 @@ func TestChildKeys(t *testing.T) {
 
 // ---- SP side
 
-var defects = []string{"none", "none", "wrong-audience", "wrong-recipient", "expired", "not-yet-valid", "stale-issue", "unknown-request", "wrong-issuer", "untrusted-signer", "encryption-key-signer", "unsigned", "no-conditions", "no-subject", "bad-status", "wrong-destination"}
+var defects = []string{"none", "none", "wrong-audience", "wrong-recipient", "expired", "not-yet-valid", "stale-issue", "unknown-request", "wrong-issuer", "untrusted-signer", "encryption-key-signer", "unsigned", "no-conditions", "no-subject", "bad-status", "wrong-destination", "foreign-request"}
+
+// spOpts (spmeta): options of the SP under which the same assertion is judged in clear and encrypted; with any of them
+// only the agreement of the two verdicts is judged
+var spOpts = []string{"reqhook", "audhook", "allowidp", "bothhooks"}
 
 func specFor(c Case) (forge.ResponseSpec, bool) {
 	now := fix.Epoch
@@ -768,6 +793,11 @@ func specFor(c Case) (forge.ResponseSpec, bool) {
 		a.IssueInstant = forge.T(now.Add(-time.Hour))
 		valid = false
 	case "unknown-request":
+		a.Confirmations[0].InResponseTo = forge.S("id-other")
+		valid = false
+	case "foreign-request":
+		// a genuine message that answers a request this SP never issued, consistently at both levels
+		r.InResponseTo = forge.S("id-other")
 		a.Confirmations[0].InResponseTo = forge.S("id-other")
 		valid = false
 	case "wrong-issuer":
@@ -820,10 +850,19 @@ func checkSPMeta(c Case) pbt.Result {
 	if err != nil {
 		return pbt.Result{Err: "harness: " + err.Error()}
 	}
-	sp := spkit.NewSP(spkit.Config{Trust: "meta2enc"})
+	sp := spkit.NewSP(spkit.Config{Trust: "meta2enc", AllowIDPInit: c.SPOpt == "allowidp"})
+	if c.SPOpt == "reqhook" || c.SPOpt == "bothhooks" {
+		sp.ValidateRequestID = func(saml.Response, []string) error { return nil }
+	}
+	if c.SPOpt == "audhook" || c.SPOpt == "bothhooks" {
+		sp.ValidateAudienceRestriction = func(*saml.Assertion) error { return nil }
+	}
 	po := spkit.ParseXML(sp, pd, []string{"id-req"}, spkit.SPACS)
 	eo := spkit.ParseXML(sp, ed, []string{"id-req"}, spkit.SPACS)
 	res.NonTrivial = !valid
+	if c.SPOpt != "" {
+		res.Classes = append(res.Classes, "spmeta:sp-option:"+c.SPOpt)
+	}
 	if po.Panic != "" || eo.Panic != "" {
 		res.Err = "panic: " + po.Panic + eo.Panic
 		return res
@@ -831,6 +870,9 @@ func checkSPMeta(c Case) pbt.Result {
 	if po.Accepted() != eo.Accepted() {
 		res.Err = fmt.Sprintf("the same assertion (defect %q, layout %s) is judged differently in clear and encrypted: plaintext: %s; encrypted: %s", c.Defect, c.Layout, po.Describe(), eo.Describe())
 		return res
+	}
+	if c.SPOpt != "" {
+		return res // the option changes which defects count; the agreement above is what is judged
 	}
 	if valid && !eo.Accepted() {
 		res.Err = fmt.Sprintf("valid encrypted assertion rejected: %s", eo.Describe())
@@ -1074,6 +1116,17 @@ func (s *stream) Read(p []byte) (int, error) {
 
 func check(c Case) pbt.Result {
 	curIDPNoise = c.IDPNoise & 127
+	curLeadRole, curReqBy = "", ""
+	if c.Kind == "idp" {
+		// (SP-initiated flows only: there the request names the role's consumer service, so the role that receives the
+		// response - and whose key counts - is determined; an IdP-initiated launch goes to the entity's first role)
+		if (c.LeadRole == "nokey" || c.LeadRole == "otherkey") && c.Method != "initiated" {
+			curLeadRole = c.LeadRole
+		}
+		if c.ReqBy == "index" {
+			curReqBy = "index"
+		}
+	}
 	curValidity = ""
 	for _, v := range validities {
 		if v == c.Validity {
@@ -1181,6 +1234,8 @@ func gen0(t *rapid.T) Case {
 		if rapid.IntRange(0, 3).Draw(t, "validity?") == 0 {
 			c.Validity = rapid.SampledFrom(validities[1:]).Draw(t, "validity")
 		}
+		c.LeadRole = rapid.SampledFrom([]string{"", "", "", "nokey", "otherkey"}).Draw(t, "leadrole")
+		c.ReqBy = rapid.SampledFrom([]string{"", "", "index"}).Draw(t, "reqby")
 		for i := 0; i < n; i++ {
 			c.KDs = append(c.KDs, KD{Use: rapid.SampledFrom([]string{"encryption", "encryption", "", "signing"}).Draw(t, "use"), Cert: rapid.SampledFrom(certClasses).Draw(t, "cert"), Methods: genMethods(t)})
 		}
@@ -1192,7 +1247,7 @@ func gen0(t *rapid.T) Case {
 		}
 		return c
 	case 5, 6, 7:
-		return Case{Kind: "spmeta", Defect: rapid.SampledFrom(defects).Draw(t, "defect"), Layout: rapid.SampledFrom([]string{"assert", "resp", "both"}).Draw(t, "layout"),
+		return Case{Kind: "spmeta", Defect: rapid.SampledFrom(defects).Draw(t, "defect"), Layout: rapid.SampledFrom([]string{"assert", "resp", "both"}).Draw(t, "layout"), SPOpt: rapid.SampledFrom(append([]string{"", "", ""}, spOpts...)).Draw(t, "spopt"),
 			Seed: rapid.Uint64Range(0, 1<<40).Draw(t, "seed"), EncLay: rapid.SampledFrom([]string{"", "sibling"}).Draw(t, "enclay")}
 	default:
 		return Case{Kind: "tamper", Tamper: rapid.SampledFrom(tampers).Draw(t, "tamper"), Pos: rapid.IntRange(0, 100000).Draw(t, "pos"), Layout: rapid.SampledFrom([]string{"assert", "both"}).Draw(t, "layout"),
@@ -1256,6 +1311,21 @@ func enumIDPOptions(_ string, emit func(Case)) {
 	}
 	emit(Case{Kind: "fresh", Session: s, N: 8, CrossProcess: true})
 	emit(Case{Kind: "fresh", Session: s, N: 9, CrossProcess: true})
+}
+
+// enumRoles: the entity publishes another SPSSODescriptor first (with or without a key of its own); the request names
+// the real consumer service by URL or by index; every key layout of the real role x flows.
+func enumRoles(_ string, emit func(Case)) {
+	s := Session{NameID: "mnameid0123456789", Email: "memail0123456789@example.com", Name: "mname0123456789", Index: "idx0123456789", Custom: "mcustom0123456789", Groups: []string{"mgroup0123456789"}}
+	for _, lr := range []string{"nokey", "otherkey"} {
+		for _, by := range []string{"", "index"} {
+			for _, kds := range [][]KD{{{Use: "encryption", Cert: "rsa"}}, {{Use: "", Cert: "rsa"}}, {{Use: "signing", Cert: "rsa"}, {Use: "", Cert: "rsa"}}, {}} {
+				for _, m := range []string{"POST", "GET"} {
+					emit(Case{Kind: "idp", Session: s, Method: m, KDs: kds, LeadRole: lr, ReqBy: by})
+				}
+			}
+		}
+	}
 }
 
 // enumMethods: a usable key whose descriptor lists EncryptionMethod elements - every single algorithm,
@@ -1343,6 +1413,9 @@ func enumSP(_ string, emit func(Case)) {
 			for _, el := range []string{"", "sibling"} {
 				emit(Case{Kind: "spmeta", Defect: d, Layout: l, Seed: 4, EncLay: el})
 			}
+			for _, o := range spOpts {
+				emit(Case{Kind: "spmeta", Defect: d, Layout: l, Seed: 4, SPOpt: o})
+			}
 		}
 	}
 	seenT := map[string]bool{}
@@ -1371,7 +1444,7 @@ var prop = &pbt.Prop[Case]{
 	Gen:   gen,
 	Check: check,
 	Reset: fix.Reset,
-	Enums: []pbt.Enum[Case]{{Name: "key-descriptor-layouts", Each: enumLayouts}, {Name: "sp-defects-and-tampering", Each: enumSP}, {Name: "re-registration-sequences", Each: enumRekey}, {Name: "cbc-padding-through-the-sp", Each: enumPad}, {Name: "cipher-value-lengths-through-the-sp", Each: enumLen}, {Name: "encryption-method-lists", Each: enumMethods}, {Name: "metadata-validity-statements", Each: enumValidity}, {Name: "idp-options-and-optional-session-fields", Each: enumIDPOptions}},
+	Enums: []pbt.Enum[Case]{{Name: "key-descriptor-layouts", Each: enumLayouts}, {Name: "sp-defects-and-tampering", Each: enumSP}, {Name: "re-registration-sequences", Each: enumRekey}, {Name: "cbc-padding-through-the-sp", Each: enumPad}, {Name: "cipher-value-lengths-through-the-sp", Each: enumLen}, {Name: "encryption-method-lists", Each: enumMethods}, {Name: "metadata-validity-statements", Each: enumValidity}, {Name: "second-role-descriptor-x-selection-by-index", Each: enumRoles}, {Name: "idp-options-and-optional-session-fields", Each: enumIDPOptions}},
 	Assumptions: []string{
 		"CR is kept out of session strings (separate finding of C07)",
 		"RSA-OAEP randomness drawn from the recording source may include extra bytes (Go's MaybeReadByte); membership of key and IV among the recorded reads is what is checked",
